@@ -28,29 +28,29 @@ func TestC04SSHAdversary(t *testing.T) {
 		mkSigner := func(i int) gossh.Signer {
 			s, err := sshswarm.NewSignerFromSigner(stack.StdKey(i))
 			if err != nil {
-				t.Fatalf("harness: %v", err)
+				t.Fatalf("%s", ev.Tag(fmt.Sprintf("harness: %v", err)))
 			}
 			return s
 		}
 		server, err := sshswarm.New("127.0.0.1:0", mkSigner(0))
 		if err != nil {
-			t.Fatalf("harness: %v", err)
+			t.Fatalf("%s", ev.Tag(fmt.Sprintf("harness: %v", err)))
 		}
 		defer server.Close()
 		honest, err := sshswarm.New("127.0.0.1:0", mkSigner(1))
 		if err != nil {
-			t.Fatalf("harness: %v", err)
+			t.Fatalf("%s", ev.Tag(fmt.Sprintf("harness: %v", err)))
 		}
 		defer honest.Close()
 		fp := func(i int) string { return gossh.FingerprintSHA256(mkSigner(i).PublicKey()) }
 		evilSigner, err := evilssh.NewSignerFromSigner(stack.StdKey(3))
 		if err != nil {
-			t.Fatalf("harness: %v", err)
+			t.Fatalf("%s", ev.Tag(fmt.Sprintf("harness: %v", err)))
 		}
 		evilPub := func(i int) evilssh.PublicKey {
 			k, err := evilssh.ParsePublicKey(mkSigner(i).PublicKey().Marshal())
 			if err != nil {
-				t.Fatalf("harness: %v", err)
+				t.Fatalf("%s", ev.Tag(fmt.Sprintf("harness: %v", err)))
 			}
 			return k
 		}
@@ -104,7 +104,7 @@ func TestC04SSHAdversary(t *testing.T) {
 			}
 			cs, err := evilssh.NewCertSigner(cert, evilSigner)
 			if err != nil {
-				t.Fatalf("harness: %v", err)
+				t.Fatalf("%s", ev.Tag(fmt.Sprintf("harness: %v", err)))
 			}
 			if k, err := gossh.ParsePublicKey(cert.Marshal()); err == nil {
 				certFP = gossh.FingerprintSHA256(k)
@@ -177,7 +177,7 @@ func TestC04SSHAdversary(t *testing.T) {
 		// the adversary
 		conn, err := net.Dial("tcp", fmt.Sprintf("127.0.0.1:%d", serverAddr.Port))
 		if err != nil {
-			t.Fatalf("harness: dial: %v", err)
+			t.Fatalf("%s", ev.Tag(fmt.Sprintf("harness: dial: %v", err)))
 		}
 		defer conn.Close()
 		cfg := &evilssh.ClientConfig{
